@@ -61,7 +61,7 @@ PROPS = {
             'quick': [{'set': 'c02', 'jobs': 8, 'timeout': 1200,
                        'harnesses': hs('c02_direct_n', 'piecewise', [1, 2, 3, 4, 5], 'segments N = {n} (loops unwound)', PW_EVAL)}],
             'thorough': [{'set': 'c02', 'jobs': 8, 'timeout': 3000,
-                          'harnesses': hs('c02_direct_n', 'piecewise', [1, 2, 3, 4, 5], 'segments N = {n} (loops unwound)', PW_EVAL)}],
+                          'harnesses': hs('c02_direct_n', 'piecewise', [1, 2, 3, 4, 5, 6], 'segments N = {n} (loops unwound)', PW_EVAL)}],
         },
         'probe': False,
         'level': 'proof',
